@@ -334,7 +334,7 @@ theorem subAllocate_inv {s s' : State} {frm toA : Addr} {id : Nat} {bytes : Int}
     (h : subAllocate s frm id toA bytes = .ok s') (hi : MoneyInv σ s) : MoneyInv σ s' := by
   unfold subAllocate at h
   simp only [bind_eq_ok, pure_eq_ok, require_eq_ok, orReject_eq_ok] at h
-  obtain ⟨sub, _, _, _, _, _, fa, _, g, _, u, _, av, _, _, _, fg, _, _, _, _, _, rfl⟩ := h
+  obtain ⟨sub, _, _, _, _, _, fa, _, _, _, g, _, u, _, av, _, _, _, fg, _, _, _, _, _, rfl⟩ := h
   refine MoneyInv.of_view (s := s) ?_ hi
   simp only [view_emit, view_setAllocation]
   split <;> rfl
